@@ -26,14 +26,15 @@ import (
 )
 
 type Unit struct {
-	ID       string           `json:"id"`
-	Harness  string           `json:"harness"` // pkgname.FuncName, e.g. calendar.VH_C04c
-	Params   map[string]int64 `json:"params"`
-	Concrete map[string]int64 `json:"concrete,omitempty"` // fix inputs (translator validation / replay in executor)
-	NoMerge  bool             `json:"no_merge,omitempty"`
-	MergeLoops bool           `json:"merge_loops,omitempty"`
-	MaxPaths int              `json:"max_paths,omitempty"`
-	TimeoutMs int             `json:"timeout_ms,omitempty"`
+	ID         string           `json:"id"`
+	Harness    string           `json:"harness"` // pkgname.FuncName, e.g. calendar.VH_C04c
+	Params     map[string]int64 `json:"params"`
+	Concrete   map[string]int64 `json:"concrete,omitempty"` // fix inputs (translator validation / replay in executor)
+	NoMerge    bool             `json:"no_merge,omitempty"`
+	MergeLoops bool             `json:"merge_loops,omitempty"`
+	MaxPaths   int              `json:"max_paths,omitempty"`
+	TimeoutMs  int              `json:"timeout_ms,omitempty"`
+	QTimeoutMs int              `json:"qtimeout_ms,omitempty"` // per-query solver time limit of this unit (default: -timeout)
 
 	varRanges map[string][2]int64
 	native    map[string]int
@@ -42,39 +43,39 @@ type Unit struct {
 }
 
 type UnitResult struct {
-	ID          string            `json:"id"`
-	Harness     string            `json:"harness"`
-	Params      map[string]int64  `json:"params"`
-	Paths       int               `json:"paths"`
-	Aborted     int               `json:"aborted_paths"`
-	Outcomes    map[string]int    `json:"outcomes"`
-	Problems    []string          `json:"problems,omitempty"` // unsupported / engine errors / unknowns: NOT discharged
-	Obligations []Obligation      `json:"obligations"`
-	Counts      map[string]int    `json:"counts"`
-	Reached     map[string]int    `json:"reached"`
+	ID          string              `json:"id"`
+	Harness     string              `json:"harness"`
+	Params      map[string]int64    `json:"params"`
+	Paths       int                 `json:"paths"`
+	Aborted     int                 `json:"aborted_paths"`
+	Outcomes    map[string]int      `json:"outcomes"`
+	Problems    []string            `json:"problems,omitempty"` // unsupported / engine errors / unknowns: NOT discharged
+	Obligations []Obligation        `json:"obligations"`
+	Counts      map[string]int      `json:"counts"`
+	Reached     map[string]int      `json:"reached"`
 	VarRanges   map[string][2]int64 `json:"var_ranges"`
-	Funcs       []string          `json:"functions_encoded"`
-	Native      map[string]int    `json:"native_calls"`
-	FeasQ       int               `json:"feasibility_queries"`
-	AssertQ     int               `json:"assertion_queries"`
-	SolverQ     int               `json:"solver_queries"`
-	SolverS     float64           `json:"solver_time_s"`
-	SolverErr   int               `json:"solver_errors"`
-	UnknownFeas int               `json:"unknown_feasibility"`
-	Merges      int               `json:"merges"`
-	MergeFails  int               `json:"merge_fails"`
-	NonTrivial  int               `json:"nontrivial_assertions"`
-	TrivialOK   int               `json:"trivial_assertions"`
-	Steps       int64             `json:"ssa_steps"`
-	WallS       float64           `json:"wall_s"`
-	Samples     []string          `json:"samples"`
-	Concrete    map[string]int64  `json:"concrete,omitempty"`
-	Trace       []string          `json:"trace,omitempty"`
+	Funcs       []string            `json:"functions_encoded"`
+	Native      map[string]int      `json:"native_calls"`
+	FeasQ       int                 `json:"feasibility_queries"`
+	AssertQ     int                 `json:"assertion_queries"`
+	SolverQ     int                 `json:"solver_queries"`
+	SolverS     float64             `json:"solver_time_s"`
+	SolverErr   int                 `json:"solver_errors"`
+	UnknownFeas int                 `json:"unknown_feasibility"`
+	Merges      int                 `json:"merges"`
+	MergeFails  int                 `json:"merge_fails"`
+	NonTrivial  int                 `json:"nontrivial_assertions"`
+	TrivialOK   int                 `json:"trivial_assertions"`
+	Steps       int64               `json:"ssa_steps"`
+	WallS       float64             `json:"wall_s"`
+	Samples     []string            `json:"samples"`
+	Concrete    map[string]int64    `json:"concrete,omitempty"`
+	Trace       []string            `json:"trace,omitempty"`
 }
 
 type Loaded struct {
-	prog *ssa.Program
-	pkgs []*ssa.Package
+	prog   *ssa.Program
+	pkgs   []*ssa.Package
 	byName map[string]*ssa.Package
 }
 
@@ -132,7 +133,7 @@ func newMachine(l *Loaded, solverBin string, timeoutMs int) (*Machine, error) {
 	m := &Machine{
 		prog: l.prog, tb: NewTermBank(), sol: sol,
 		globals: map[*ssa.Global]*value{}, funcsSeen: map[*ssa.Function]bool{},
-		pdom: map[*ssa.Function]map[*ssa.BasicBlock]*ssa.BasicBlock{},
+		pdom:     map[*ssa.Function]map[*ssa.BasicBlock]*ssa.BasicBlock{},
 		maxSteps: 1 << 40, varSeq: map[string]int{}, now: time.Now(),
 	}
 	m.installExterns()
@@ -161,6 +162,10 @@ func (m *Machine) runUnit(l *Loaded, u *Unit, sampleDir string, rng *rand.Rand) 
 	m.steps = 0
 	m.locksHeld = 0
 	q0, st0, se0 := m.sol.Queries, m.sol.Time, m.sol.Errors
+	if u.QTimeoutMs > 0 && !strings.Contains(m.sol.bin, "cvc5") {
+		m.sol.send(fmt.Sprintf("(set-option :timeout %d)", u.QTimeoutMs))
+		defer m.sol.send(fmt.Sprintf("(set-option :timeout %d)", m.sol.timeoutMs))
+	}
 	parts := strings.SplitN(u.Harness, ".", 2)
 	pkg := l.byName[parts[0]]
 	var fn *ssa.Function
